@@ -182,6 +182,10 @@ func Generate(r *rand.Rand, o Opts) *Project {
 				f.Name = "main.go"
 				f.MainMethod = r.Intn(4) == 0
 				f.OneLineMain = r.Intn(5) == 0
+				f.MainSkeleton = r.Intn(4) == 0
+			}
+			if fi == 0 && r.Intn(3) == 0 {
+				f.InitK = 2 + r.Intn(90)
 			}
 			if fi == 0 && !pk.IsMain && o.Asm && r.Intn(100) < 40 {
 				f.Asm = true
@@ -307,6 +311,22 @@ func (p *Project) addShapes(r *rand.Rand) {
 	if r.Intn(3) == 0 {
 		p.ExtraOld["internal/cov/NOTES.md"] = "notes kept next to the generated file\n"
 		p.ExtraNew["internal/cov/NOTES.md"] = "notes kept next to the generated file\n"
+	}
+	// a nested module two levels down whose parent directory holds a changed file that sorts first
+	// (the answer for the parent must not be taken for the answer for the module)
+	if r.Intn(2) == 0 {
+		doc := func(k int) string {
+			return fmt.Sprintf("package examples\n\n// Doc sits next to a nested module.\nfunc Doc(a int) int {\n\ta += %d\n\treturn a\n}\n", k)
+		}
+		qs := func(k int) string {
+			return fmt.Sprintf("package main\n\nfunc main() {\n\ta := %d\n\tprintln(a)\n}\n", k)
+		}
+		p.ExtraOld["examples/doc.go"] = doc(1)
+		p.ExtraNew["examples/doc.go"] = doc(2)
+		p.ExtraOld["examples/quickstart/go.mod"] = "module example.com/quickstart\n\ngo 1.23\n"
+		p.ExtraNew["examples/quickstart/go.mod"] = p.ExtraOld["examples/quickstart/go.mod"]
+		p.ExtraOld["examples/quickstart/main.go"] = qs(1)
+		p.ExtraNew["examples/quickstart/main.go"] = qs(2)
 	}
 	// a file of a main package that sorts before the entry file and only TALKS about func main
 	// (a usage text in a raw string, lines starting with "func main()"): never the entry file
